@@ -12,12 +12,16 @@ namespace gs {
 // op flag bits (field y of mutator ops)
 // F_NOSWEEP: no observer is called after this step (observer schedules are part of the history: a cache keyed on too
 // little state is only stale if the observer was NOT called between two mutations)
-enum { F_FORCE = 1, F_NOLABEL = 2, F_FLIP = 4, F_EXISTING = 8, F_NOSWEEP = 256 };
+// F_ALIAS: the vertex argument is passed as a reference to an element of the neighbour list the call modifies (a legal call
+// that integer-drawing harnesses never make; only matters if an implementation takes its indices by reference)
+enum { F_FORCE = 1, F_NOLABEL = 2, F_FLIP = 4, F_EXISTING = 8, F_NOSWEEP = 256, F_ALIAS = 512 };
 
 struct GenCfg {
     Kind kind = SIMPLE;
     bool directed = true;
     bool force = false;
+    int hub = -1;        // large runs: a vertex that attracts most operations (long neighbour lists)
+    bool extreme = false; // multigraph runs with multiplicities near 2^31 / 2^32: no additive ops on existing pairs
     std::vector<std::pair<const char *, int>> w; // op kind -> weight
     int total = 0;
     void add(const char *k, int weight) {
@@ -57,6 +61,7 @@ inline GenCfg makeGenCfg(Kind kind, bool directed, bool force, sim::Rng &r, bool
     }
     if (kind == LABELED) c.add("setlab", m(10) * setlabBoost);
     if (kind == WEIGHTED) c.add("setw", m(12));
+    c.add("dedup", swarm ? (r.pm(300) ? 2 : 0) : 1); // removeDuplicateEdges without duplicates: must change nothing
     c.add("rem", m(12));
     c.add("remloops", m(3));
     c.add("remvert", m(4));
@@ -80,6 +85,12 @@ inline sim::Op genMutator(sim::Rng &r, const GenCfg &c, const sim::Op &prev) {
     else if (sel < 55) { o.a = -1; o.b = (int64_t)r.below(64); } // last vertex
     else if (sel < 60) { o.a = (int64_t)r.below(64); o.b = prev.a; } // vertex just used/removed
     else { o.a = (int64_t)r.below(64); o.b = (int64_t)r.below(64); }
+    if (c.hub >= 0) { // large runs: vertices up to 72, most operations touch the hub (in either argument position)
+        const unsigned hs = (unsigned)r.below(100);
+        if (sel >= 35) { o.a = (int64_t)r.below(96); o.b = (int64_t)r.below(96); }
+        if (hs < 30) o.a = c.hub;
+        else if (hs < 55) o.b = c.hub;
+    }
     // label / multiplicity / weight argument: ~90% differ from the default value (index 0)
     o.x = r.pm(100) ? 0 : (int64_t)(1 + r.below(63));
     if (o.k == "resize") o.x = (int64_t)r.below(4);
@@ -90,6 +101,7 @@ inline sim::Op genMutator(sim::Rng &r, const GenCfg &c, const sim::Op &prev) {
         if (r.pm(600)) o.y |= F_EXISTING;
     }
     if (o.k == "setlab") o.y |= F_EXISTING; // setEdgeLabel on a missing edge is a rejected call, generated as such
+    if ((o.k == "rem" || o.k == "remmul" || o.k == "setmul" || o.k == "remvert") && r.pm(150)) o.y |= F_ALIAS;
     if (c.force && (o.k == "add" || o.k == "addmul")) {
         if (c.kind == SIMPLE || c.kind == LABELED) { if (r.pm(650)) o.y |= F_FORCE; }
         else o.y |= F_FORCE;
